@@ -23,7 +23,7 @@ alarm). Rows are read through an independent raw sqlite3 connection on a /dev/sh
 after every case the thread-local session state must be clean and a following session must work
 and see the same rows.
 """
-import os, sys, itertools, sqlite3, warnings, shutil, gc
+import os, sys, itertools, sqlite3, warnings, shutil, gc, threading, signal
 from vf import core
 
 LEVEL = 'exploration'
@@ -258,6 +258,29 @@ def expected(case):
 class _Env(object): pass
 _ENV = None
 
+class SelfDeadlock(Exception):
+    """the only thread of the harness would wait for a lock that it holds itself"""
+class CaseTimeout(BaseException):
+    """a single case did not terminate"""
+
+class NoWaitLock(object):
+    """Stand-in for the SQLite provider's transaction_lock / pre_transaction_lock (instance attributes,
+    DESIGN section 0). The harness is single-threaded, so finding the lock held means the session
+    machinery leaked it and would block forever: raise instead."""
+    def __init__(self): self._lock = threading.Lock()
+    def acquire(self, blocking=True, timeout=-1):
+        if not self._lock.acquire(False):
+            raise SelfDeadlock('SQLite transaction lock is still held by an earlier session of this thread')
+        return True
+    def release(self): self._lock.release()
+    def locked(self): return self._lock.locked()
+    def __enter__(self): self.acquire(); return self
+    def __exit__(self, *a): self.release()
+
+def _on_alarm(signum, frame):
+    raise CaseTimeout()
+CASE_TIMEOUT_S = 60
+
 def scratch_dir():
     d = os.environ.get('VF_C18_DIR')
     if not d:
@@ -293,6 +316,8 @@ def env():
         connection.execute('PRAGMA journal_mode = MEMORY').fetchall()
     db.bind('sqlite', E.path, create_db=True, timeout=0)
     db.generate_mapping(create_tables=True)
+    if hasattr(db.provider, 'transaction_lock'): db.provider.transaction_lock = NoWaitLock()
+    if hasattr(db.provider, 'pre_transaction_lock'): db.provider.pre_transaction_lock = NoWaitLock()
     E.db, E.T = db, T
     E.raw = sqlite3.connect(E.path, timeout=0, isolation_level=None)
     E.raw.execute('PRAGMA journal_mode = MEMORY').fetchall()
@@ -417,6 +442,9 @@ def run_real(case):
     st = _St()
     form = case['form']
     exc = None
+    if threading.current_thread() is threading.main_thread():
+        signal.signal(signal.SIGALRM, _on_alarm)
+        signal.setitimer(signal.ITIMER_REAL, CASE_TIMEOUT_S)
     try:
         if form in ('dec', 'cm', 'nest'):
             build_levels(E, case['levels'], case['scripts'], st)()
@@ -432,6 +460,9 @@ def run_real(case):
         if isinstance(e, (KeyboardInterrupt, SystemExit)): raise
         exc = type(e).__name__
         e = None
+    finally:
+        if threading.current_thread() is threading.main_thread():
+            signal.setitimer(signal.ITIMER_REAL, 0)
     leaks = []
     local = pc.local
     if local.db_session is not None: leaks.append('local.db_session')
@@ -471,6 +502,16 @@ def run_real(case):
         try: E.db.disconnect()
         except Exception: pass
         gc.collect()
+    if local.db_session is not None or local.db_context_counter or local.db2cache or lock is not None and lock.locked():
+        # (the following session itself may have leaked) next case must start from a clean thread
+        try: pc.rollback()
+        except Exception: pass
+        local.db_session = None; local.db_context_counter = 0; local.db2cache.clear(); del local.debug_stack[:]
+        if lock is not None and lock.locked():
+            try: lock.release()
+            except Exception: pass
+        try: E.db.disconnect()
+        except Exception: pass
     return rows, tuple(st.trace), exc, tuple(leaks)
 
 # ---------------------------------------------------------------------------------------------
@@ -612,7 +653,7 @@ def check_case(sub, case, outcomes):
         return True
     # must reproduce identically before it is reported
     again = run_real(case)
-    if again != real:
+    if again != real and not (real[3] or again[3]):     # leaked session state legitimately makes runs differ
         raise core.HarnessError('non-deterministic execution of %r: %r then %r' % (case, real, again))
     sig, small, sdiff, sreal, sexp = signature(case)
     sub.count('raw_disagreements')
